@@ -1,6 +1,6 @@
 from typing import Any, List, Optional, Set, TypeVar
 
-from .exceptions import EvaluationError
+from .exceptions import EvaluationError, KeyNotFoundError
 from .types import Evaluatable, Options, _present_keys
 
 A = TypeVar("A", covariant=True)
@@ -66,7 +66,12 @@ class Coalesce(Evaluatable[A]):
             try:
                 member.validate(options)
             except EvaluationError as e:
-                err = e
+                if _missing_option(e):
+                    err = e
+                else:
+                    # Not a matter of missing options (something the member needs to
+                    # evaluate in order to be validated failed): a real failure
+                    failed = failed or e
                 if method == "keys":
                     skipped |= _present_keys(member, options)
                 continue
@@ -86,6 +91,16 @@ class Coalesce(Evaluatable[A]):
 
     def __repr__(self) -> str:
         return f"Coalesce({', '.join(map(repr, self.members))})"
+
+
+def _missing_option(error: BaseException) -> bool:
+    """Does the error go back to an option that is missing?"""
+    cause: Optional[BaseException] = error
+    while cause is not None:
+        if isinstance(cause, KeyNotFoundError):
+            return True
+        cause = cause.__cause__
+    return False
 
 
 coalesce = Coalesce
